@@ -38,6 +38,102 @@ def affine(t):
     return t, 0
 
 
+def canon_base(b):
+    """day-count base as the i64 widening of its innermost unsigned atom (so `x as i64`, `i32::from(x)` and
+    `i64::from(x)` name the same quantity)"""
+    if b is None:
+        return None
+    core = b
+    ty = None
+    while isinstance(core, tuple) and core and core[0] == "cast" and len(core) == 4 and sym._uwiden(core[2], core[3]):
+        ty = core[2]
+        core = core[1]
+    if ty is not None and ty in ("u8", "u16", "u32"):
+        return sym.cast(core, ty, "i64")
+    return b
+
+
+def small_unsigned(b):
+    """the base is a widening of a u8/u16 quantity (so day arithmetic on it cannot leave chrono's range)"""
+    core, ty = b, None
+    while isinstance(core, tuple) and core and core[0] == "cast" and len(core) == 4 and sym._uwiden(core[2], core[3]):
+        ty = core[2]
+        core = core[1]
+    return ty in ("u8", "u16")
+
+
+def m_from_num_days_from_ce_opt(ev, a, t, d):
+    """A1': NaiveDate::from_num_days_from_ce_opt(n) = Some(day n) whenever n is within chrono's range"""
+    base, k = affine(a[0])
+    if base is None:
+        return some(("date", None, k)) if -90_000_000 < k < 90_000_000 else NONE
+    if small_unsigned(base) and -90_000_000 < k < 90_000_000:
+        return some(("date", canon_base(base), k))
+    raise sym.Undecided("from_num_days_from_ce_opt of an unbounded day number")
+
+
+def m_overflowing_add_signed(ev, a, t, d):
+    tm, du = a
+    if tm[0] == "time" and tm[2] is None:
+        return ("tuple", (("time", tm[1], du), ("wrapped_seconds", tm, du)))
+    raise sym.Undecided("NaiveTime::overflowing_add_signed on a non-constant time")
+
+
+def m_and_time(ev, a, t, d):
+    return ("ndt", a[0], a[1])
+
+
+def m_and_utc(ev, a, t, d):
+    if a[0][0] == "ndt":
+        return ("instant", a[0][1], a[0][2])
+    raise sym.Undecided("and_utc of an unknown NaiveDateTime")
+
+
+MS_PER_DAY = 86_400_000
+
+
+def linear(t):
+    """({atom: coefficient}, constant) of an i64 expression built from + - and multiplication by constants"""
+    if is_c(t) and isinstance(t[1], int):
+        return {}, t[1]
+    if t[0] == "bin" and len(t) == 5 and t[1] in ("Add", "Sub"):
+        (la, ka), (lb, kb) = linear(t[2]), linear(t[3])
+        sg = 1 if t[1] == "Add" else -1
+        out = dict(la)
+        for x, c in lb.items():
+            out[x] = out.get(x, 0) + sg * c
+        return {x: c for x, c in out.items() if c}, ka + sg * kb
+    if t[0] == "bin" and len(t) == 5 and t[1] == "Mul":
+        for x, y in ((t[2], t[3]), (t[3], t[2])):
+            if is_c(y) and isinstance(y[1], int):
+                lx, kx = linear(x)
+                return {a: c * y[1] for a, c in lx.items()}, kx * y[1]
+    return {t: 1}, 0
+
+
+def m_from_timestamp_millis(ev, a, t, d):
+    """A6: DateTime::from_timestamp_millis(86_400_000*(D + k) + (T mod 86_400_000)) is the instant day(epoch + D + k),
+    time T wrapped to the day, whenever D is a small unsigned day count (always in range)"""
+    lin, k = linear(a[0])
+    days = [(x, c) for x, c in lin.items() if c == MS_PER_DAY]
+    rest = [(x, c) for x, c in lin.items() if c != MS_PER_DAY]
+    if len(days) == 1 and len(rest) == 1 and rest[0][1] == 1 and k % MS_PER_DAY == 0 and small_unsigned(days[0][0]):
+        r = rest[0][0]
+        if r[0] == "bin" and r[1] == "Rem" and is_c(r[3]) and r[3][1] == MS_PER_DAY:
+            tt = r[2]
+            core = tt
+            nonneg = False
+            while isinstance(core, tuple) and core and core[0] == "cast" and len(core) == 4 and sym._uwiden(core[2], core[3]):
+                nonneg = True
+                core = core[1]
+            if nonneg:
+                return some(("instant", ("date", canon_base(days[0][0]), EPOCH + k // MS_PER_DAY), ("time", 0, ("dur", 1, tt))))
+    raise sym.Undecided("from_timestamp_millis of an expression that is not days*86400000 + (t mod 86400000)")
+
+
+CONSTS = {"chrono::naive::time::NaiveTime::MIN": ("time", 0, None)}
+
+
 def m_from_ymd_opt(ev, a, t, d):
     if all(is_c(x) for x in a):
         n = days_from_ce(a[0][1], a[1][1], a[2][1])
@@ -59,7 +155,7 @@ def m_date_add(ev, a, t, d):
         base, k = affine(du[2])
         if dt[1] is not None and base is not None:
             raise sym.Undecided("date + two symbolic day counts")
-        return ("date", dt[1] if dt[1] is not None else base, dt[2] + k)
+        return ("date", canon_base(dt[1] if dt[1] is not None else base), dt[2] + k)
     raise sym.Undecided("NaiveDate + non-day duration")
 
 
@@ -103,6 +199,11 @@ MODELS = {
     "chrono::naive::time::NaiveTime::from_num_seconds_from_midnight_opt": m_time_from_secs,
     "<chrono::naive::time::NaiveTime as core::ops::arith::Add<chrono::time_delta::TimeDelta>>::add": m_time_add,
     "chrono::naive::datetime::NaiveDateTime::new": m_ndt_new,
+    "chrono::naive::date::NaiveDate::from_num_days_from_ce_opt": m_from_num_days_from_ce_opt,
+    "chrono::naive::time::NaiveTime::overflowing_add_signed": m_overflowing_add_signed,
+    "chrono::naive::date::NaiveDate::and_time": m_and_time,
+    "chrono::naive::datetime::NaiveDateTime::and_utc": m_and_utc,
+    "chrono::datetime::DateTime::<chrono::offset::utc::Utc>::from_timestamp_millis": m_from_timestamp_millis,
     "chrono::datetime::DateTime::<Tz>::from_naive_utc_and_offset": m_from_naive_utc,
     "chrono::datetime::DateTime::<Tz>::timestamp_millis": m_timestamp_millis,
 }
@@ -110,4 +211,13 @@ MODELS = {
 
 def spec_instant(mjd_i64_term, unit_ms, time_i64_term):
     """1970-01-01T00:00:00Z + (d - 1) days + t"""
-    return some(("instant", ("date", mjd_i64_term, EPOCH - 1), ("time", 0, ("dur", unit_ms, time_i64_term))))
+    return some(("instant", ("date", canon_base(mjd_i64_term), EPOCH - 1), ("time", 0, ("dur", unit_ms, time_i64_term))))
+
+
+def evaluator(prog, **kw):
+    """a VN evaluator carrying the chrono axioms (call models + named constants)"""
+    models = dict(MODELS)
+    models.update(kw.pop("models", None) or {})
+    ev = sym.Evaluator(prog, models=models, **kw)
+    ev.const_models = dict(CONSTS)
+    return ev
